@@ -77,7 +77,7 @@ class NoiseDriver:
             wa = np.array([AMPS['func'](x) if st['amp'] == 'func' else _scalar_only(x) for x in f]) * (f != 0)
             if not np.allclose(a, wa, rtol=1e-12, atol=0):
                 raise Divergence(where + ': amplitudes', list(wa[:6]), list(a[:6]))
-        start = float(nz._fft_start) if st['impl'] == 'fft' else 0.0
+        start = W0 * TICK if st['impl'] == 'fft' else 0.0      # the FFT implementation counts time from the first sample of its construction grid
         self.basis[b] = dict(f=f, a=a, p=p, rms=float(nz.rms), start=start, impl=st['impl'])
         # unit amplitudes give the requested rms: exact over one period of the FFT implementation
         if st['impl'] == 'fft' and st['amp'] == 'const' and len(f) and np.all(a == 1.0) and not np.any(np.isclose(f, FNY, rtol=1e-9)):
